@@ -96,6 +96,18 @@ pub fn exec(st: &mut State, op: &Value) -> Value {
 }
 
 pub fn run_script(ops: &[Value], out_path: &str) {
+    // a session whose first operation says so runs on a thread of its own (nothing was called on it
+    // before: whatever the library initialises lazily per thread is initialised by THIS session)
+    if ops.first().map_or(false, |o| o.get("fresh_thread").is_some()) && std::env::var("VERIF_NESTED").is_err() {
+        let ops2: Vec<Value> = ops.iter().map(|o| { let mut o = o.clone(); o.as_object_mut().unwrap().remove("fresh_thread"); o }).collect();
+        let path = out_path.to_string();
+        std::thread::Builder::new().stack_size(64 << 20).spawn(move || run_script_here(&ops2, &path)).unwrap().join().unwrap();
+        return;
+    }
+    run_script_here(ops, out_path)
+}
+
+fn run_script_here(ops: &[Value], out_path: &str) {
     let mut st = State::new();
     let mut w = BufWriter::new(File::create(out_path).expect("create trace"));
     for op in ops {
